@@ -51,6 +51,15 @@ Definition extended_mps_factors := pad_factors 2 keep_mps.
 Definition keep_mpo (s : nat) : bool := (s / 2 =? s mod 2) && (s <? 4).
 Definition extended_mpo_factors := pad_factors 4 keep_mpo.
 
+(* the padding a dimension-aware version would apply (proposed fix of finding F-14): physical dimension of the
+   given factors, identity on every level for the MPO.  [d] is the dimension of the MPO's physical legs. *)
+Definition phys_dim (fs : list T3) : nat := match fs with f :: _ => dp f | [] => 2 end.
+Definition extended_mps_factors_v2 (fs : list T3) := pad_factors (phys_dim fs) keep_mps fs.
+Definition keep_mpo_d (d s : nat) : bool := (s / d =? s mod d) && (s <? d * d).
+Definition extended_mpo_factors_v2 (d : nat) := pad_factors (d * d) (keep_mpo_d d).
+(* the MPS / MPO constructors assert that every factor has the physical dimension of the state *)
+Definition uniform_dim (d : nat) (Ts : list T3) : bool := forallb (fun T => dp T =? d) Ts.
+
 (* the physical indices of the well-prepared sites *)
 Fixpoint restrict (A : Type) (mask : list bool) (b : list A) : list A :=
   match mask, b with
